@@ -2,7 +2,7 @@
    well-formed wire input the property's decision procedure accepts the model's observable. *)
 From Coq Require Import List ZArith Bool Lia.
 From Verif Require Import Lib.Wire Gen.Gen_consts C10.Model C10.Spec C10.Cases
-  C10.Proofs_Pick C10.Proofs_Adjust C10.Proofs_Budget C10.Proofs_Float C10.Proofs.
+  C10.Proofs_Pick C10.Proofs_Adjust C10.Proofs_Budget C10.Proofs_Float C10.Proofs C10.Round C10.Proofs_Round.
 Import ListNotations.
 Open Scope Z_scope.
 
@@ -41,6 +41,27 @@ Proof.
   apply Forall_forall. intros p Hp. rewrite forallb_forall in H2. apply Z.leb_le. exact (H2 p Hp).
 Qed.
 
+Lemma dec_robs_enc l : dec_robs (length l) (flat_map enc_robs l) = Some l.
+Proof.
+  induction l as [|o t IH]; [reflexivity|].
+  destruct o as [[[a b] c] q]. cbn [length flat_map enc_robs dec_robs].
+  rewrite <- !app_assoc. rewrite take_list_encode. rewrite take_list_encode. rewrite take_list_encode.
+  cbn [app]. rewrite !hdZ_encode. rewrite !Z.eqb_refl. cbn [andb]. rewrite IH. reflexivity.
+Qed.
+Lemma rhist_length c : forall ops st, length (rhist c st ops) = length ops.
+Proof. induction ops as [|op t IH]; intros st; cbn [rhist length]; [reflexivity | rewrite IH; reflexivity]. Qed.
+
+Lemma rinvb_uniform c s q : rinvb c (mkRS s s s q false) = true.
+Proof.
+  unfold rinvb. cbn [rs_root rs_pod rs_ctr]. rewrite eq_listZ_refl. rewrite orb_true_r. cbn [andb].
+  destruct (lenZ s =? 0); reflexivity.
+Qed.
+
+Lemma dec_rounds_inv l : let '(c, st, _) := dec_rounds l in rinvb c st = true.
+Proof.
+  unfold dec_rounds. destruct (dec_rounds_raw l) as [[c [old q0]] ops]. apply rinvb_uniform.
+Qed.
+
 Theorem cases_sound inp : wf_case inp = true -> prop_case inp (run_case inp) = 0.
 Proof.
   unfold wf_case, prop_case, run_case.
@@ -48,7 +69,13 @@ Proof.
   destruct k as [|p|p]; try discriminate.
   destruct p as [p|p|].
   - (* odd, at least 3 *)
-    destruct p as [p|p|]; try discriminate.
+    destruct p as [p|p|].
+    { (* 7: whole rounds *)
+      destruct p as [p|p|]; try discriminate.
+      pose proof (dec_rounds_inv l) as Hinv.
+      destruct (dec_rounds l) as [[c st] ops].
+      intros Hwf. rewrite <- (rhist_length c ops st). rewrite dec_robs_enc.
+      apply rhist_code_model; [exact Hwf | exact Hinv]. }
     { (* 5: quota history *)
       destruct p as [p|p|]; try discriminate.
       intros _. destruct (dec_hist l) as [[cap init] ops]. apply hist_code_model. }
